@@ -45,14 +45,16 @@ RunOf(lg, a, b) == [i \in 1..(b - a) |-> <<a + i - 1, lg[a + i].m>>]
 (* available offset.  Exactly one answer, except below l0 where the        *)
 (* statements of C02 ("the retained messages in [o,o+n-1]") and C14        *)
 (* ("starts from the earliest message still available") can be read two    *)
-(* ways; both readings are accepted, nothing else is.                      *)
+(* ways; a gap-free run that starts at l0 and ends anywhere between the    *)
+(* two readings is accepted (the code cuts at a segment boundary in        *)
+(* between), nothing else is.                                              *)
 (***************************************************************************)
 SlicesLo(lg, l0, o, n) ==
     LET L == Len(lg) IN
     IF L = 0 \/ o > L - 1 THEN { <<>> }
     ELSE IF o >= l0 THEN { RunOf(lg, o, MinI(o + n, L)) }
-    ELSE IF o + n <= l0 THEN { <<>>, RunOf(lg, l0, MinI(l0 + n, L)) }
-    ELSE { RunOf(lg, l0, MinI(o + n, L)), RunOf(lg, l0, MinI(l0 + n, L)) }
+    ELSE IF o + n <= l0 THEN { RunOf(lg, l0, e) : e \in l0..MinI(l0 + n, L) }             \* wholly below l0: nothing, or up to n from l0
+    ELSE { RunOf(lg, l0, e) : e \in MinI(o + n, L)..MinI(l0 + n, L) }                     \* straddles l0: starts at l0, ends between the two readings
 
 FirstN(lg, l0, n) == RunOf(lg, l0, MinI(l0 + n, Len(lg)))
 LastN(lg, l0, n)  == RunOf(lg, MaxI(l0, Len(lg) - n), Len(lg))
